@@ -616,3 +616,44 @@ pub fn gen_scenario_tfc(r: &mut Rng, proj: bool, proj_links: bool, groups: bool)
     for t in &tops { ops.push(Op::Query(*t)); }
     Scenario { prog, n_inputs, n_ext: 0, ops }
 }
+
+
+/// Unordered dependency groups whose members take different (real) time: leaves over inputs, some of them
+/// slow (`Delay`), group readers over several leaves, a top over the group readers.  Sessions change several
+/// inputs at once, so that while one member of a group reports a change another is still inside its executor.
+pub fn gen_scenario_gdelay(r: &mut Rng) -> Scenario {
+    let n_leaf = r.range(2, 5) as u32;
+    let inp = |i: u32| Node { kind: Kind::Input, idx: i };
+    let nrm = |i: u32| Node { kind: Kind::Normal, idx: i };
+    let rd = |n: Node| Box::new(Expr::Read(n));
+    let mut prog = Program::default();
+    for j in 0..n_leaf {
+        let body = Expr::Add(rd(inp(j)), Box::new(Expr::Const(r.below(3) as i64)));
+        let body = match r.below(3) { 0 => body, 1 => Expr::Delay(1, Box::new(body)), _ => Expr::Delay(r.range(2, 5), Box::new(body)) };
+        prog.exprs.insert(nrm(j), body);
+    }
+    let n_grp = r.range(1, 2) as u32;
+    let mut groups = Vec::new();
+    for g in 0..n_grp {
+        let mut members: Vec<Node> = Vec::new();
+        for j in 0..n_leaf { if r.chance(3, 4) { members.push(nrm(j)); } }
+        if members.len() < 2 { members = vec![nrm(0), nrm(1)]; }
+        if r.chance(1, 2) { members.reverse(); }
+        let n = nrm(n_leaf + g);
+        let e = if r.chance(1, 3) { Expr::Add(rd(nrm(r.below(n_leaf as u64) as u32)), Box::new(Expr::Group(members))) } else { Expr::Group(members) };
+        prog.exprs.insert(n, e); groups.push(n);
+    }
+    let top = nrm(n_leaf + n_grp);
+    let mut e = Expr::Const(0);
+    for g in &groups { e = Expr::Add(Box::new(e), rd(*g)); }
+    prog.exprs.insert(top, e);
+    let mut ops = vec![Op::Session { sets: (0..n_leaf).map(|i| (i, r.below(4) as i64)).collect(), refresh: false }, Op::Query(top)];
+    for _ in 0..r.range(2, 4) {
+        let mut sets = Vec::new();
+        for j in 0..n_leaf { if r.chance(2, 3) { sets.push((j, r.below(50) as i64)); } }
+        ops.push(Op::Session { sets, refresh: false });
+        ops.push(Op::Query(if r.chance(3, 4) { top } else { *r.pick(&groups) }));
+        if r.chance(1, 3) { ops.push(Op::Query(top)); }
+    }
+    Scenario { prog, n_inputs: n_leaf, n_ext: 0, ops }
+}
